@@ -619,9 +619,11 @@ Qed.
 
 Lemma popen_follow_bal fuel h base sub fl o : bal (Rfd o) o (popen_follow fz cfg fuel h base sub fl).
 Proof.
-  unfold popen_follow. destruct (_ || _); [constructor; hnf; apply Permutation_refl|].
+  unfold popen_follow. destruct (negb _ && _); [constructor; hnf; apply Permutation_refl|].
   destruct (path_strip_trailing_slash sub) as [sub' ts].
-  eapply bal_bind_same; [apply perm_closed_Rfd|apply preadlink_bal|]. intros [bs|e]; [|apply popen_bal].
+  destruct (OPEN_FOLLOW_REFUSAL_AFTER_SLASH && _); [constructor; hnf; apply Permutation_refl|].
+  eapply bal_bind_same; [apply perm_closed_Rfd|apply preadlink_bal|].
+  intros [bs|e]; [|destruct (_ && negb _); [constructor; hnf; apply Permutation_refl|apply popen_bal]].
   destruct (path_split sub') as [[[parent [trailing|]]|e]|].
   2: { constructor. hnf. apply Permutation_refl. }
   2: { constructor. hnf. apply Permutation_refl. }
